@@ -118,7 +118,7 @@ func (w *world) step(i int, st simcore.Step) bool {
 				return false
 			}
 		}
-		w.pools = append(w.pools, &refPool{id: r.PoolID, d0: d0, d1: q, spacing: int64(sp), spread: sf, addr: pool.GetAddress(), spreadAdr: pool.GetSpreadRewardsAddress(), incAdr: pool.GetIncentivesAddress(), scaled: r.PoolID > w.threshold, dustPrec: rnew()})
+		w.pools = append(w.pools, &refPool{id: r.PoolID, d0: d0, d1: q, spacing: int64(sp), spread: sf, addr: pool.GetAddress(), spreadAdr: pool.GetSpreadRewardsAddress(), incAdr: pool.GetIncentivesAddress(), scaled: r.PoolID > w.threshold, iscaled: r.PoolID > w.ithreshold, dustPrec: rnew()})
 		return true
 
 	case "pos":
